@@ -11,8 +11,8 @@
     * Integer / Number: the DataFrame row defines the spelling by "cast via str → float (→ int)", i.e.
       Python's `float()` grammar: optional surrounding white space, sign, digits with single `_` between
       digits, optional fraction, optional exponent.  `inf` / `nan` are not numbers.  Integer: the value
-      must be whole and fit 64 bits.  Number: |v| < 10^13 (DECIMAL(28,15), the documented default of
-      VTL_DUCKDB_DECIMAL_WIDTH / SCALE).  The value denoted is the exact decimal value.
+      must be whole and fit 64 bits.  Number: |v| < 10^18 (DECIMAL(28,10), the documented defaults of
+      VTL_DUCKDB_DECIMAL_WIDTH / OUTPUT_NUMBER_SIGNIFICANT_DIGITS).  The value denoted is the exact decimal value.
     * Boolean: `true` / `false` in any letter case, `1`, `0` — nothing else.
     * String: any text, denoting itself.
     * Date: `YYYY-MM-DD` or `YYYY-MM-DD(T| )HH:MM:SS[.f…][Z|±HH:MM]`, a real calendar day, complete
@@ -175,8 +175,10 @@ def denoteInteger (s : List Char) : Option Val :=
       let v := if d.neg then -v else v
       if int64Min ≤ v ∧ v ≤ int64Max then some (.int v) else none
 
-/-- integer digits available to a Number: DECIMAL(28,15) -/
-def numberIntDigits : Int := 13
+/-- integer digits available to a Number: DECIMAL(28,10) = width 28 − scale 10 (the documented defaults of
+    VTL_DUCKDB_DECIMAL_WIDTH and OUTPUT_NUMBER_SIGNIFICANT_DIGITS; Props/C19 ties the constant to the
+    transcribed configuration) -/
+def numberIntDigits : Int := 18
 
 def denoteNumber (s : List Char) : Option Val :=
   match parseDec s with
